@@ -158,6 +158,11 @@ def gen_case(rng, idx):
             lines.append(" %s %s" % (ELEM_MAP.get(el, el), fmt(round(logu(rng, 0.01, 5), 5))))
     # equilibrium phases
     pps = []
+    rel_ex = rel_sf = None
+    if rng.random() < 0.12:
+        rel_ex = rng.choice(sorted(chosen))
+    if rng.random() < 0.12:
+        rel_sf = rng.choice(sorted(chosen))
     lines.append("EQUILIBRIUM_PHASES 1")
     for nm in sorted(chosen):
         target = 0.0 if rng.random() < 0.6 else round(rng.uniform(-1.0, 1.0), 2)
@@ -165,6 +170,9 @@ def gen_case(rng, idx):
         init = 0.0 if r < 0.3 else (10.0 if r < 0.4 else float(fmt(logu(rng, 1e-4, 1e-1))))
         r = rng.random()
         kind = "normal" if r < 0.65 else ("dissolve_only" if r < 0.82 else "precipitate_only")
+        if nm in (rel_ex, rel_sf):
+            kind = "normal"
+            init = max(init, 0.1) if init < 10 else init
         force = (kind == "normal" and rng.random() < 0.08)
         l = " %s %s %s" % (nm, fmt(target), fmt(init))
         if kind != "normal":
@@ -179,7 +187,11 @@ def gen_case(rng, idx):
     # exchanger
     exch = None
     r = rng.random()
-    if r < 0.35:
+    if rel_ex is not None:
+        per = float(fmt(logu(rng, 1e-3, 0.2)))
+        lines += ["EXCHANGE 1", " X %s equilibrium_phase %s" % (rel_ex, fmt(per)), " -equilibrate 1"]
+        exch = {"sites": {"X": None}, "mode": "related", "related": {"X": (rel_ex, per)}}
+    elif r < 0.35:
         lines.append("EXCHANGE 1")
         if rng.random() < 0.5:
             tot = float(fmt(logu(rng, 1e-4, 0.5)))
@@ -195,7 +207,16 @@ def gen_case(rng, idx):
             exch = {"sites": {"X": float(tot)}, "sites_exact": {"X": [tot.numerator, tot.denominator]}, "mode": "explicit"}
     # surface
     surf = None
-    if rng.random() < 0.3:
+    if rel_sf is not None:
+        perw = float(fmt(logu(rng, 1e-3, 0.3)))
+        pers = float(fmt(perw * 0.025))
+        lines += ["SURFACE 1", " Hfo_wOH %s equilibrium_phase %s 5.34e4" % (rel_sf, fmt(perw)),
+                  " Hfo_sOH %s equilibrium_phase %s" % (rel_sf, fmt(pers)), " -equilibrate 1"]
+        edl = rng.choice(["ddl", "no_edl"])
+        if edl == "no_edl":
+            lines.append(" -no_edl")
+        surf = {"sites": {"Hfo_w": None, "Hfo_s": None}, "mode": "related", "edl": edl, "related": {"Hfo_w": (rel_sf, perw), "Hfo_s": (rel_sf, pers)}}
+    elif rng.random() < 0.3:
         lines.append("SURFACE 1")
         w = float(fmt(logu(rng, 1e-5, 1e-2)))
         s = float(fmt(w * rng.choice([0.025, 0.05, 0.1])))
@@ -234,6 +255,8 @@ def gen_case(rng, idx):
         lines.append("REACTION_TEMPERATURE 1")
         lines.append(" %s" % fmt(round(rng.uniform(5, 70), 1)))
     hp = rng.random() < 0.5
+    if rel_ex is not None or rel_sf is not None:
+        hp = True     # mineral-related sites: outside "defined explicitly or by equilibration"; see notes/C03.md (tolerance gap)
     lines += ["SELECTED_OUTPUT 1", " -reset false", " -state true", " -high_precision %s" % ("true" if hp else "false"), "USER_PUNCH 1"]
     heads = []
     exprs = []
@@ -324,32 +347,56 @@ def q(x):
     return vlib.coq_Q(x)
 
 
-def build_case(meta, row):
-    """(coq term, python-side list of item descriptions for messages) or None if the row lacks a value"""
+def _num(v):
+    return isinstance(v, float) and math.isfinite(v)
+
+
+def build_case(meta, row, init_rows=None):
+    """(coq term, python-side list of item descriptions for messages) or None if the row lacks a value.
+    row: the selected-output row of the reaction step; init_rows: {"i_exch": row, "i_surf": row} of the initial
+    exchange / surface equilibrations (site totals are checked there as well)."""
     pps, exs, sfs, sss = [], [], [], []
     items = []
+    init_rows = init_rows or {}
+    eqmol = {p["name"]: row.get("eq%d" % k) for k, p in enumerate(meta["pps"])}
     for k, p in enumerate(meta["pps"]):
         m, s = row.get("eq%d" % k), row.get("si%d" % k)
         if not isinstance(m, float) or not isinstance(s, float) or not (math.isfinite(m) and math.isfinite(s)):
             return None
         pps.append("PP %s %s %s %s %s" % (KIND[p["kind"]], q(p["target"]), q(p["init"]), q(m), q(s)))
         items.append(("pp", p["name"], p["kind"], p["target"], p["init"], m, s))
-    if meta["exch"]:
-        f = row.get("sysX")
-        if not isinstance(f, float) or not math.isfinite(f):
-            return None
-        d = meta["exch"]["sites"]["X"]
-        dq = q(Fraction(*meta["exch"]["sites_exact"]["X"])) if "sites_exact" in meta["exch"] else q(d)
-        exs.append("SITE %s %s" % (dq, q(f)))
-        items.append(("exch", "X", d, f))
-    if meta["surf"]:
-        for nm in sorted(meta["surf"]["sites"]):
-            f = row.get("sys_%s" % nm)
-            if not isinstance(f, float) or not math.isfinite(f):
+    for what, mkey, dest, irow in (("exch", "exch", exs, init_rows.get("i_exch")), ("surf", "surf", sfs, init_rows.get("i_surf"))):
+        mm = meta[mkey]
+        if not mm:
+            continue
+        for nm in sorted(mm["sites"]):
+            col = "sysX" if what == "exch" else "sys_%s" % nm
+            f = row.get(col)
+            if not _num(f):
                 return None
-            d = meta["surf"]["sites"][nm]
-            sfs.append("SITE %s %s" % (q(d), q(f)))
-            items.append(("surf", nm, d, f))
+            if mm.get("mode") == "related":
+                ph, per = mm["related"][nm]
+                mol = eqmol.get(ph)
+                if not _num(mol):
+                    return None
+                if mol <= 0:
+                    continue             # the mineral carrying the sites is gone: no sites are defined
+                dfr = Fraction(per) * Fraction(mol)   # sites defined = sites per mole * amount of the mineral
+                dest.append("SITE %s %s" % (q(dfr), q(f)))
+                items.append((what, nm + " (per mole of %s)" % ph, float(dfr), f))
+                ini = [p["init"] for p in meta["pps"] if p["name"] == ph]
+                if irow is not None and _num(irow.get(col)) and ini and ini[0] > 0:
+                    dfi = Fraction(per) * Fraction(ini[0])
+                    dest.append("SITE %s %s" % (q(dfi), q(irow[col])))
+                    items.append((what, nm + " (initial equilibration, per mole of %s)" % ph, float(dfi), irow[col]))
+                continue
+            d = mm["sites"][nm]
+            dq = q(Fraction(*mm["sites_exact"][nm])) if "sites_exact" in mm else q(d)
+            dest.append("SITE %s %s" % (dq, q(f)))
+            items.append((what, nm, d, f))
+            if irow is not None and _num(irow.get(col)):
+                dest.append("SITE %s %s" % (dq, q(irow[col])))
+                items.append((what, nm + " (initial equilibration)", d, irow[col]))
     if meta["ss"]:
         comps = []
         obs = []
@@ -429,14 +476,18 @@ def coq_check(terms):
     return out
 
 
-def last_react_row(res):
+def rows_by_state(res):
     tabs = res.get("tables") or {}
     t = tabs.get("1")
     if not t:
-        return None
+        return None, {}
     rows = vlib.table_dicts(t)
-    rows = [r for r in rows if r.get("state") == "react"]
-    return rows[-1] if rows else None
+    react = [r for r in rows if r.get("state") == "react"]
+    init = {}
+    for r in rows:
+        if r.get("state") in ("i_exch", "i_surf"):
+            init[r["state"]] = r
+    return (react[-1] if react else None), init
 
 
 def evaluate(ctx, jobs):
@@ -452,11 +503,11 @@ def evaluate(ctx, jobs):
         if r.get("rc", 1) != 0 or "dberr" in r:
             stats["error"] += 1          # run ended with ERROR: outside the premises of the property
             continue
-        row = last_react_row(r)
+        row, init_rows = rows_by_state(r)
         if row is None:
             stats["no_row"] += 1
             continue
-        bc = build_case(j["meta"], row)
+        bc = build_case(j["meta"], row, init_rows)
         if bc is None:
             stats["no_row"] += 1
             continue
@@ -466,7 +517,7 @@ def evaluate(ctx, jobs):
     for (j, items, row), ok in zip(keep, verdicts):
         stats["checked"] += 1
         m = j["meta"]
-        fp = [j["db"], len(m["pps"]), sorted(p["kind"] for p in m["pps"]), bool(m["exch"]), bool(m["surf"]), bool(m["ss"]),
+        fp = [j["db"], len(m["pps"]), sorted(p["kind"] for p in m["pps"]), (m["exch"] or {}).get("mode"), (m["surf"] or {}).get("mode"), bool(m["ss"]),
               [it[5] > 0 for it in items if it[0] == "pp"]]
         ctx.case(fp + [j["id"]], sample={"database": j["db"], "input": j["text"][:600], "reported": {k: v for k, v in row.items() if isinstance(v, float)}})
         if not ok:
@@ -496,7 +547,7 @@ def run(ctx):
             ctx.extra["replay_stats"] = st
             ctx.rule = "replay of one recorded input"
             return
-    ok = vlib.coq_stage(ctx, "Props/Properties_C03.vo", gen=gen)
+    ok = vlib.coq_stage(ctx, "Props/Properties_C03.vo", gen=gen, extra_targets=["C03/Examples.vo"])
     n = ctx.n(80, 2000)
     if not ok:
         n = max(n, 240)       # a proof about the regenerated code broke: search harder for a concrete failing input
@@ -513,5 +564,5 @@ def run(ctx):
                 "solutions, optional REACTION and REACTION_TEMPERATURE; a case counts when the run completes without error; fingerprint = database, "
                 "number and kinds of phases, which reactants exist, which phases end up present")
     ctx.extra["input_distribution"] = stats
-    if stats["checked"] < max(5, n // 4):
+    if stats["checked"] < max(3, n // 2):
         ctx.obligation("correspondence-volume", False, "only %d of %d generated inputs completed without error: %r" % (stats["checked"], n, stats))
